@@ -214,6 +214,7 @@ class Runner:
         if job.slice_formula: cmd += ['--slice-formula']
         cmd += job.extra_cbmc
         cmd += list(extra)
+        if os.environ.get('VERIF_SHOWCMD'): print('CMD[%s] (cd %s && %s)' % (job.name, b['dir'], ' '.join("'%s'" % c for c in cmd)), flush=True)
         return cmd
 
     def resolve_loop_rules(self, job, b):
@@ -235,6 +236,9 @@ class Runner:
             if name in job.unwindset: continue
             if fn in job.loop_rules: job.unwindset[name] = job.loop_rules[fn]
             elif fil + ':' in job.loop_rules: job.unwindset[name] = job.loop_rules[fil + ':']
+            else:
+                for k, v in job.loop_rules.items():      # 're:<regex>' keys match the (mangled) function name
+                    if k.startswith('re:') and re.search(k[3:], fn): job.unwindset[name] = v; break
 
     def gen_c_file(self, job, b):
         if not job.gen_c: return []
